@@ -8,6 +8,18 @@ import WuffsVerif.Model.Interval
   ipu zlo zhi wlo whi -> ok lo hi                            (z.inPlaceUnite(w), new value of z)
   bfr n -> v n | panic
   split2|split3 lo hi -> ...
+per-helper lines (every unexported helper of interval.go):
+  bquo|bmul|blsh|brsh i j -> v n | panic        (bigIntQuo/Mul/Lsh/Rsh; Quo by zero panics)
+  bset|bnot b -> v b                              (bigIntNewSet/NewNot; b may be inf = nil)
+  bmask n0 n1 -> v m sh|fr                        (bitMask; sh = pointer into smallBitMasks)
+  jz lo hi -> b bool                              (justZero)
+  preds lo hi i -> b Empty ContainsNegative ContainsNonNegative ContainsPositive ContainsZero ContainsInt(i)
+  rel xlo xhi ylo yhi -> b ContainsIntRange Eq
+  str lo hi -> s <String()>
+  mkempty -> ok 1 -1 ; newbip -> p +inf -inf
+  lowermin|raisemax plo phi y -> p lo hi          (biggerInt tokens: -inf, +inf, decimal)
+  toir plo phi -> ok lo hi ; fromir lo hi -> p lo hi
+  mullsh 0|1 xlo xhi ylo yhi -> ok lo hi          (mulLsh(x, y, shift) called directly)
 -/
 open WuffsVerif WuffsVerif.Line WuffsVerif.Interval
 
@@ -25,7 +37,93 @@ def parse2 (a b c d : String) : Option (IR × IR) := do
   let yl ← parseBound c; let yh ← parseBound d
   pure (⟨xl, xh⟩, ⟨yl, yh⟩)
 
+def parseBI (s : String) : Option BI :=
+  if s == "-inf" then some .negInf else if s == "+inf" then some .posInf
+  else (s.toInt?).map BI.fin
+
+def showBI : BI → String
+  | .negInf => "-inf"
+  | .posInf => "+inf"
+  | .fin i => toString i
+
+def showBIP (p : BIP) : String := "p " ++ showBI p.lo ++ " " ++ showBI p.hi
+
+def c06Helper (l : List String) : Option String :=
+  match l with
+  | ["mkempty"] => some ("ok " ++ showIR mkEmpty)
+  | ["newbip"] => some (showBIP BIP.new)
+  | [op, a] =>
+    if op == "bset" || op == "bnot" then
+      match parseBound a with
+      | some b => some ("v " ++ showBound (if op == "bset" then bigNewSet b else bigNewNot b))
+      | none => some "bad-op"
+    else none
+  | [op, a, b] =>
+    match op with
+    | "bquo" | "bmul" | "blsh" | "brsh" =>
+      (match a.toInt?, b.toInt? with
+      | some i, some j =>
+        let r : Option Int := match op with
+          | "bquo" => bigQuoP i j
+          | "bmul" => some (bigMul i j)
+          | "blsh" => some (bigLsh i j)
+          | _ => some (bigRsh i j)
+        some (match r with | some v => "v " ++ toString v | none => "panic")
+      | _, _ => some "bad-op")
+    | "bmask" =>
+      (match a.toNat?, b.toNat? with
+      | some n0, some n1 =>
+        some ("v " ++ toString (bitMask n0 n1) ++ (if bitMaskShared n0 n1 then " sh" else " fr"))
+      | _, _ => some "bad-op")
+    | "jz" =>
+      (match parseBound a, parseBound b with
+      | some lo, some hi => some ("b " ++ toString (IR.justZero ⟨lo, hi⟩))
+      | _, _ => some "bad-op")
+    | "str" =>
+      (match parseBound a, parseBound b with
+      | some lo, some hi => some ("s " ++ IR.str ⟨lo, hi⟩)
+      | _, _ => some "bad-op")
+    | "toir" =>
+      (match parseBI a, parseBI b with
+      | some lo, some hi => some ("ok " ++ showIR (BIP.toIR ⟨lo, hi⟩))
+      | _, _ => some "bad-op")
+    | "fromir" =>
+      (match parseBound a, parseBound b with
+      | some lo, some hi => some (showBIP (BIP.fromIR ⟨lo, hi⟩))
+      | _, _ => some "bad-op")
+    | _ => none
+  | [op, a, b, c] =>
+    match op with
+    | "preds" =>
+      (match parseBound a, parseBound b, c.toInt? with
+      | some lo, some hi, some i =>
+        let x : IR := ⟨lo, hi⟩
+        some s!"b {x.empty} {x.containsNegative} {x.containsNonNegative} {x.containsPositive} {x.containsZero} {x.containsInt i}"
+      | _, _, _ => some "bad-op")
+    | "lowermin" | "raisemax" =>
+      (match parseBI a, parseBI b, parseBI c with
+      | some lo, some hi, some y =>
+        let p : BIP := ⟨lo, hi⟩
+        some (showBIP (if op == "lowermin" then p.lowerMin y else p.raiseMax y))
+      | _, _, _ => some "bad-op")
+    | _ => none
+  | ["rel", a, b, c, d] =>
+    match parse2 a b c d with
+    | some (x, y) => some s!"b {x.containsIntRange y} {x.eq y}"
+    | none => some "bad-op"
+  | ["mullsh", sh, a, b, c, d] =>
+    match parse2 a b c d with
+    | some (x, y) =>
+      if sh == "0" then some ("ok " ++ showIR (mulLsh x y false))
+      else if sh == "1" then some ("ok " ++ showIR (mulLsh x y true))
+      else some "bad-op"
+    | none => some "bad-op"
+  | _ => none
+
 def c06Step (l : List String) : String :=
+  match c06Helper l with
+  | some s => s
+  | none =>
   match l with
   | [op, a, b, c, d] =>
     match parse2 a b c d with
